@@ -553,6 +553,23 @@ def _fld_name(p):
     return None
 
 
+def _never_zero(prog, f, val, depth=0):
+    """a non-zero constant, or the result of a helper of the same unit that answers non-zero constants only (a failure
+    reporter: `return report_duplicate(n);`)"""
+    from ..errflow import ret_sources
+    val = strip_casts(val)
+    if val.is_const:
+        return bool(val.is_int and val.sval != 0)
+    if val.is_inst and val.op == "call" and val.callee and depth < 2:
+        t = prog.fn(val.callee, f.unit)
+        if t is None or t.decl or t.unit is not f.unit:
+            return False
+        t.build()
+        srcs = ret_sources(t)
+        return bool(srcs) and all(_never_zero(prog, t, v, depth + 1) for (v, _b) in srcs)
+    return False
+
+
 def find_dup_check(prog):
     """the function that rejects duplicate sibling names: strcmp over two node names with a failing return on equality"""
     res = []
@@ -573,8 +590,10 @@ def find_dup_check(prog):
                 cands = []
                 if v is not None and v.is_inst and v.op == "phi":
                     for val, pred in zip(v.ops, v.x["inc"]):
-                        if val.is_const and val.is_int and val.sval != 0:
+                        if _never_zero(prog, f, val):
                             cands.append(pred)
+                elif v is not None and _never_zero(prog, f, v):
+                    cands.append(r.bb)
                 for b in cands:
                     for cond, outcome, br in f.guards_at(b):
                         if cond.is_inst and cond.op == "icmp" and c in backward_slice(cond) and \
